@@ -5,12 +5,12 @@ package main
 
 import (
 	"fmt"
-	"os"
-	"time"
 	"go/token"
+	"os"
 	"regexp"
 	"sort"
 	"strings"
+	"time"
 
 	"golang.org/x/tools/go/ssa"
 )
@@ -29,13 +29,14 @@ type Ob struct {
 
 // Ctx collects the obligations of one property in one build configuration.
 type Ctx struct {
-	P     *Prog
-	Prop  string
-	Tier  string
-	Obs   []*Ob
-	Funcs map[string]bool
-	seen  map[string]bool
-	last  time.Time
+	P         *Prog
+	Prop      string
+	Tier      string
+	Obs       []*Ob
+	Funcs     map[string]bool
+	seen      map[string]bool
+	last      time.Time
+	strictErr bool
 }
 
 func NewCtx(p *Prog, prop, tier string) *Ctx {
